@@ -151,8 +151,13 @@ def _spawn(modname, cases, tier, seed, nworkers, timeout):
     plain = [c for c in cases if not c.get("pyopt") and not c.get("debuglog")]
     opt = [c for c in cases if c.get("pyopt")]
     dbg = [c for c in cases if c.get("debuglog")]
+    # cases that ask for an interpreter of their own (thread interleavings: nothing another case left behind in the process - warm caches,
+    # monitoring state, a big heap - between them and the schedule they explore)
+    solo = [c for c in plain if c.get("own_worker")]
+    plain = [c for c in plain if not c.get("own_worker")]
     n = max(1, min(nworkers, len(plain)))
     shards = [(plain[i::n], [], {}) for i in range(n)] if plain else []
+    shards += [([c], [], {}) for c in solo]
     if opt:
         # the same workload in interpreters started with -O (assert statements compiled away): a sample of the cases, own workers
         m = max(1, min(max(2, nworkers // 3), len(opt)))
@@ -307,7 +312,10 @@ def _main(modname, argv=None):
         want = len(cases) if pyopt == "all" else (min(len(cases), max(8, len(cases) // 6)) if tier == "quick" else min(len(cases), max(40, len(cases) // 3)))
         step = max(1, len(cases) // max(1, want))
         clones = []
-        for c in cases[(seed % step)::step]:
+        picked = cases[(seed % step)::step]
+        # cases whose outcome depends on timing (thread interleavings) run in every environment, not in a sample of them
+        picked = picked + [c for c in cases if c.get("all_envs") and c not in picked]
+        for c in picked:
             k = dict(c)
             k["id"] = "%s|python-O" % c["id"]
             k["sig"] = list(c.get("sig") or [c["id"]]) + ["python -O"]
@@ -322,7 +330,9 @@ def _main(modname, argv=None):
         want = min(len(base), max(6, len(base) // 12)) if tier == "quick" else min(len(base), max(30, len(base) // 6))
         step = max(1, len(base) // max(1, want))
         clones = []
-        for c in base[((seed + 1) % step)::step]:
+        picked = base[((seed + 1) % step)::step]
+        picked = picked + [c for c in base if c.get("all_envs") and c not in picked]
+        for c in picked:
             k = dict(c)
             k["id"] = "%s|debug-logging" % c["id"]
             k["sig"] = list(c.get("sig") or [c["id"]]) + ["debug logging"]
